@@ -88,19 +88,23 @@ theorem prologue_sim (pre : Stmt) (all : List String) (te : C.TyEnv) (acc : TopA
 def allOf (pre : Stmt) (body : Option Stmt) : List String :=
   pre.assigned ++ (match body with | some b => b.assigned | none => [])
 
-theorem InF_unfold (pre : Stmt) (body : Option Stmt) :
-    InF { pre := pre, body := body } =
+theorem InF_unfold (pre : Stmt) (body : Option Stmt) (hs : List Helper) :
+    InF { pre := pre, body := body, helpers := hs } =
       (match pre.okTop (allOf pre body) [] with
        | none => false
        | some te => match body with
          | none => true
          | some b => b.okNested (allOf pre body) te) := rfl
 
-theorem C01_partial_aux (p : Prog) (c : CProg) (N fuel : Nat) (t : List Ev)
-    (hin : InF p = true) (htr : tr p = .ok c) (hpy : Py.run p N fuel = .ok t) :
+/-- the run of a sketch does not look at the list of function definitions (the call statements carry them) -/
+theorem C_run_helpers (c : CProg) (hs : List Helper) (N f : Nat) (m : C.Mode) :
+    C.run { c with helpers := hs } N f m = C.run c N f m := rfl
+
+theorem C01_partial_core (p : Prog) (c : CProg) (N fuel : Nat) (t : List Ev)
+    (hin : InF p = true) (htr : trCore p = .ok c) (hpy : Py.run p N fuel = .ok t) :
     ∃ fuel', C.run c N fuel' = .ok t ∨ UB (C.run c N fuel') := by
-  obtain ⟨pre, body⟩ := p
-  rw [InF_unfold] at hin
+  obtain ⟨pre, body, helpers⟩ := p
+  rw [InF_unfold pre body helpers] at hin
   have hall1 : ∀ x ∈ pre.assigned, x ∈ allOf pre body := fun x hx => List.mem_append_left _ hx
   have hall2 : ∀ b, body = some b → ∀ x ∈ b.assigned, x ∈ allOf pre body := by
     intro b hb x hx; subst hb; exact List.mem_append_right _ hx
@@ -111,7 +115,6 @@ theorem C01_partial_aux (p : Prog) (c : CProg) (N fuel : Nat) (t : List Ev)
     rw [hokTop] at hin
     simp only at hin
     have hpreall : ∀ x ∈ pre.assigned, x ∈ all := hall1
-    replace htr := (tr_ok htr).2
     unfold trCore at htr
     obtain ⟨acc, hacc, htr⟩ := bind_ok htr
     simp only at htr
@@ -172,5 +175,12 @@ theorem C01_partial_aux (p : Prog) (c : CProg) (N fuel : Nat) (t : List Ev)
       unfold C.run
       simp only [htef, hs0, ok_bind]
       exact ub_bind _ hf1
+
+theorem C01_partial_aux (p : Prog) (c : CProg) (N fuel : Nat) (t : List Ev)
+    (hin : InF p = true) (htr : tr p = .ok c) (hpy : Py.run p N fuel = .ok t) :
+    ∃ fuel', C.run c N fuel' = .ok t ∨ UB (C.run c N fuel') := by
+  obtain ⟨_, c0, hs, htr0, rfl⟩ := tr_ok htr
+  obtain ⟨f', h⟩ := C01_partial_core p c0 N fuel t hin htr0 hpy
+  exact ⟨f', by simpa only [C_run_helpers] using h⟩
 
 end Reduino.Lemmas.C01
